@@ -43,6 +43,30 @@ PROPS = {
             "C01: uniform RNG words => Bernoulli(p) true with probability floor(p 2^64)/2^64, coin 1/2 (rand 0.10 decoding rules are modelled in Model/Rand.lean and validated by the threshold measurements)",
         ],
     },
+    "C02": {
+        "gen": [],
+        "thm_module": "NutsModel.Thm.C02",
+        "namespace": "NutsModel.C02",
+        "theorems": ["vsum_eq_sum", "dot_eq_sum", "diag_bijection", "leapfrog_reversible", "leapfrog_gy_consistent",
+                     "leapfrog_reversible_iterate", "leapfrog_is_textbook_diag", "lowrank_apply_inverse", "lowrank_bijection",
+                     "gradient_pullback_diag", "gradient_pullback_lowrank", "exactnormal_conserves", "modified_energy_conserved",
+                     "leapfrog_shear_decomposition", "shearV_bijective", "shearQ_bijective", "logdet_diag"],
+        "harness": "C02",
+        "level": "proof",
+        "rule": ("one real TransformedHamiltonian::leapfrog step (and the step back) per case: Diag and LowRank transformations with "
+                 "explicit parameters (hook constructors), ranks 0..n with random orthonormal eigenvectors, eigenvalues/scales log-uniform "
+                 "over up to 16 orders of magnitude, Euclidean and ExactNormal, densities iso / badly scaled / dense correlated Gaussian / "
+                 "Student-t / quartic, dimensions 1..17 (quick) / 1..64 (thorough), step sizes of both signs log-uniform in [1e-4, 2]. "
+                 "Model/Leapfrog.lean (Float instance) must reproduce transformed position, gradient, velocity, logdet, kinetic energy and "
+                 "energy before and after the step. Direct oracle independent of the model: forward-then-backward returns the start; a "
+                 "dense-matrix textbook leapfrog with M^-1 = F F^T (F assembled explicitly, F^T p = v solved by LU) gives the same x' and "
+                 "p'; logdet = -ln|det F|; transformed gradient = F^T grad; transformation round trip; ExactNormal conserves the energy of "
+                 "a matching Gaussian over 50 steps. distinct_nontrivial = low-rank cases with rank >= 1 and n >= 2."),
+        "trusted": [
+            "C02: proved over R for every dimension, step size of either sign and ARBITRARY gradient field: leapfrog(-eps) o leapfrog(eps) = id for Euclidean and ExactNormal (and along whole orbits); for the diagonal transformation the whitened step IS the textbook leapfrog for H = -logp + 1/2 p^T M^-1 p with M^-1 = diag(sigma^2); Diag and LowRank maps are bijections (orthonormal U, lambda > 0) whose gradient map is the adjoint of the linear part; logdet = -sum log sigma; ExactNormal conserves 1/2|v|^2+1/2|y|^2 on the standard normal; the Euclidean step conserves the shadow energy of a harmonic oscillator exactly (hence energy error O(eps^2) there); the step is a composition of three shears, each bijective with explicit inverse",
+            "C02: NOT proved: volume preservation as a statement about Jacobian determinants of the composed map for arbitrary differentiable densities (each shear has a unit-triangular Jacobian; the fderiv bookkeeping is not formalised); energy error O(eps^2) for arbitrary smooth densities (needs Taylor estimates) -- supported numerically only; the textbook identity for the LOW-RANK transformation is checked by the dense-matrix oracle on real steps, its Lean statement covers the diagonal case; Sylvester's determinant identity for the low-rank logdet is checked numerically (ln|det F| by LU)",
+        ],
+    },
     "C03": {
         "gen": ["Numeric"],
         "thm_module": "NutsModel.Thm.C03",
